@@ -28,7 +28,6 @@ import json
 import math
 import time
 
-import numpy as np
 import pandas as pd
 
 from .. import gen, impl
@@ -441,16 +440,40 @@ def corr_compare(case, steps, val):
     return None
 
 
+def _eval_one(c):
+    """-> (failures, steps, counters of this evaluation); never raises"""
+    before = dict(STATS)
+    try:
+        fs, steps = impl_eval(c)
+    except Exception as e:  # noqa: BLE001
+        fs, steps = [{"check": "b", "step": -1, "kind": "harness", "actual": f"evaluating the case raised {repr(e)[:300]}",
+                      "expected": "no exception"}], None
+    return fs, steps, {k: v - before.get(k, 0) for k, v in STATS.items() if v != before.get(k, 0)}
+
+
+def _eval_all(cases):
+    """implementation side of all cases; large batches (thorough tier) in forked worker processes, in order"""
+    if len(cases) >= 400:
+        try:
+            import multiprocessing as mp
+            import os
+            workers = max(2, min(8, (os.cpu_count() or 2) // 2))
+            with mp.get_context("fork").Pool(workers) as pool:
+                res = pool.map(_eval_one, cases, chunksize=max(1, len(cases) // (workers * 4)))
+            for _, _, delta in res:                 # the workers' counters
+                for k, v in delta.items():
+                    bump(k, v)
+            return [(fs, steps) for fs, steps, _ in res]
+        except Exception:  # noqa: BLE001  (no fork available: evaluate serially)
+            pass
+    return [_eval_one(c)[:2] for c in cases]
+
+
 def failing(ctx, cases, tag, with_coq=True):
     """-> list (one per case) of failure lists"""
     out = []
     steps_all = []
-    for c in cases:
-        try:
-            fs, steps = impl_eval(c)
-        except Exception as e:  # noqa: BLE001
-            fs, steps = [{"check": "b", "step": -1, "kind": "harness", "actual": f"evaluating the case raised {repr(e)[:300]}",
-                          "expected": "no exception"}], None
+    for fs, steps in _eval_all(cases):
         out.append(fs)
         steps_all.append(steps)
     if with_coq:
